@@ -168,3 +168,90 @@ def op_finders(c):
             run['finders'].append(d)
         o['runs'].append(run)
     return o
+
+
+# ----------------------------------------------------------------------------- sidecars, getters
+DATA = {}
+
+
+def _sidecar(p):
+    """independent computation of the sidecar path: same folder, '.' + name with the last suffix replaced"""
+    d, name = os.path.split(p)
+    n2 = '.' + name
+    i = n2.rfind('.')
+    if i > 0:
+        n2 = n2[:i]
+    return os.path.join(d, n2 + pathconf()['suffix'])
+
+
+def seed_data(univ):
+    load_tables()
+    if not DATA and os.environ.get('SPIL_UNIVERSES'):
+        DATA.update(json.load(open(os.environ['SPIL_UNIVERSES'])).get('data', {}))
+    pc = pathconf()
+    for c in pc['cfgs']:
+        for e, pairs in DATA.get(univ, []):
+            sid = Sid('/'.join(dec(x) for x in e))
+            p = sid.path(c) if sid else None
+            if p and os.path.exists(str(p)):
+                with open(_sidecar(str(p)), 'w') as f:
+                    json.dump({k: v for k, v in pairs}, f)
+
+
+def ensure_data(univ):
+    ensure(univ, False)
+    if _state.get('data') != univ:
+        seed_data(univ)
+        _state['data'] = univ
+
+
+def _rec(d):
+    return [[str(k), enc(v) if v is not None else '%None'] for k, v in d.items()]
+
+
+ENC = {'str': str, 'uri': (lambda s: s.uri), 'none': (lambda s: None)}
+
+
+def op_getter(c):
+    """C16: GetFromPaths.get next to FindInPaths.find on the same tree; GetFromAll; get_one / get_data / get_attr"""
+    ensure_data(c['univ'])
+    s = render_search(c['search'])
+    attrs = list(c['attrs']) or None
+    encf = ENC[c['enc']]
+    o = dict(raised='')
+    found, r1 = guard(lambda: list(FindInPaths().find(s, as_sid=False)))
+    got, r2 = guard(lambda: list(GetFromPaths().get(s, attributes=attrs, sid_encode=encf)))
+    o['raised'] = r1 or r2
+    o['found'] = [_segs(x) for x in (found or [])]
+    o['got'] = [_rec(d) for d in (got or [])]
+    one, r3 = guard(lambda: GetFromPaths().get_one(s, attributes=attrs, sid_encode=encf))
+    o['get_one'] = _rec(one or {})
+    o['raised'] = o['raised'] or r3
+    if found:
+        gd, r4 = guard(lambda: GetFromPaths().get_data(found[0], attributes=attrs, sid_encode=encf))
+        ga, r5 = guard(lambda: GetFromPaths().get_attr(found[0], 'n'))
+        o['get_data'] = _rec(gd or {})
+        o['get_attr'] = enc(ga) if ga is not None else '%None'
+        o['raised'] = o['raised'] or r4 or r5
+    else:
+        o['get_data'] = []
+        o['get_attr'] = '%None'
+    allr, r6 = guard(lambda: list(GetFromAll().get(s, sid_encode=str)))
+    o['raised'] = o['raised'] or r6
+    o['all_sids'] = [enc(d.get('sid', '')) for d in (allr or [])]
+    return o
+
+
+def op_sidreads(c):
+    """C12: exists / children / siblings of one Sid on the materialised universe"""
+    ensure(c['univ'], False)
+    sid = Sid('/'.join(dec(x) for x in c['segs']))
+    pc = pathconf()
+    o = dict(L=[_segs(x) for x in entity_list(pc['default'])])
+    v, r = guard(lambda: sid.exists())
+    o['exists'] = dict(raised=r, value=bool(v))
+    ch, r = guard(lambda: list(sid.children()))
+    o['children'] = dict(raised=r, res=[_segs(x) for x in (ch or [])])
+    sb, r = guard(lambda: list(sid.siblings()))
+    o['siblings'] = dict(raised=r, res=[_segs(x) for x in (sb or [])])
+    return o
